@@ -12,15 +12,15 @@ import (
 // but not yet run" window exactly: once fired, Stop reports false and cannot
 // prevent the callback.
 type Timer struct {
-	k      *Kernel
-	seq    int
-	due    time.Time
-	period time.Duration
-	fn     func()
-	C      chan time.Time
+	k       *Kernel
+	seq     int
+	due     time.Time
+	period  time.Duration
+	fn      func()
+	C       chan time.Time
 	sleeper *Task
-	active bool
-	Fired  int
+	active  bool
+	Fired   int
 }
 
 //go:norace
@@ -30,7 +30,7 @@ func (k *Kernel) newTimer(d time.Duration) *Timer {
 		d = 0
 	}
 	t := &Timer{k: k, seq: k.timerSeq, due: time.Now().Add(d), active: true}
-	k.timers = append(k.timers, t)
+	k.timers = Push(k.timers, t)
 	return t
 }
 
@@ -83,7 +83,7 @@ func (t *Timer) Reset(d time.Duration) bool {
 			}
 		}
 		if !found {
-			t.k.timers = append(t.k.timers, t)
+			t.k.timers = Push(t.k.timers, t)
 		}
 	}
 	return was
